@@ -115,6 +115,66 @@ def gen_instances(rng, thorough):
     return out
 
 
+# ---- latent-variable instances.  The pool is FIXED (its own seed, independent of VERIF_SEED): the exact E-step scales the
+# completed data by lcm_r Z(r), which must stay inside TLC's 32-bit integers; the pool below was checked to do so.
+EM_SHAPES = [  # name, observed (card), latent (card), edges, nrows, den
+    ("naive2", {"v0": 2, "v1": 2}, {"h0": 2}, [("h0", "v0"), ("h0", "v1")], 5, 4),
+    ("naive2b", {"v0": 2, "v1": 3}, {"h0": 2}, [("h0", "v0"), ("h0", "v1")], 5, 4),
+    ("mediator", {"v0": 2, "v1": 2}, {"h0": 2}, [("v0", "h0"), ("h0", "v1")], 5, 4),
+    ("tail", {"v0": 2, "v1": 2}, {"h0": 2}, [("h0", "v0"), ("v0", "v1")], 4, 5),
+    ("lat3", {"v0": 2, "v1": 2}, {"h0": 3}, [("h0", "v0"), ("h0", "v1")], 4, 4),
+    ("single", {"v0": 3}, {"h0": 2}, [("h0", "v0")], 4, 5),
+]
+EM_SHAPES_T = [
+    ("naive3", {"v0": 2, "v1": 2, "v2": 2}, {"h0": 2}, [("h0", "v0"), ("h0", "v1"), ("h0", "v2")], 4, 3),
+    ("twolat", {"v0": 2, "v1": 2}, {"h0": 2, "h1": 2}, [("h0", "v0"), ("h1", "v0"), ("h0", "v1")], 3, 3),
+    ("conf", {"v0": 2, "v1": 2}, {"h0": 2}, [("h0", "v0"), ("h0", "v1"), ("v0", "v1")], 4, 3),
+    ("iso", {"v0": 2, "v1": 2, "v2": 2}, {"h0": 2}, [("h0", "v0"), ("h0", "v1")], 5, 4),
+    ("naive2c", {"v0": 3, "v1": 2}, {"h0": 2}, [("h0", "v0"), ("h0", "v1")], 6, 5),
+]
+
+
+def em_instances(thorough):
+    import itertools
+    rng = random.Random(60606)
+    out = []
+    for name, obs, lat, edges, nrows, den in EM_SHAPES + (EM_SHAPES_T if thorough else []):
+        for rep in range(2):
+            dom = {v: [f"s{j}" for j in range(c)] for v, c in {**obs, **lat}.items()}
+            pa = {v: sorted(u for u, w in edges if w == v) for v in dom}
+            # few distinct row types (they bound lcm_r Z(r)), integer weights
+            types = []
+            ntypes = min(3, nrows)
+            while len(types) < ntypes:
+                a = {v: rng.choice(dom[v]) for v in obs}
+                if a not in types:
+                    types.append(a)
+                if len(types) == math.prod(obs.values()):
+                    break
+            rows = [{"a": dict(types[k % len(types)]), "w": [rng.choice([1, 1, 2]), 1]} for k in range(nrows)]
+            th0 = {}
+            for v in dom:
+                cells = []
+                for combo in itertools.product(*[dom[p] for p in pa[v]]):
+                    r = len(dom[v])
+                    while True:
+                        cuts = sorted(rng.sample(range(1, den), r - 1)) if r > 1 else []
+                        col = [b - a for a, b in zip([0] + cuts, cuts + [den])]
+                        if r == 1 or len(set(col)) > 1 or den % r:
+                            break
+                    for s, n in zip(dom[v], col):
+                        a = {v: s}
+                        a.update(dict(zip(pa[v], combo)))
+                        cells.append({"a": a, "n": n})
+                th0[v] = {"den": den, "cells": cells}
+            out.append({"id": f"E_{name}_{rep}", "obs": sorted(obs), "lat": sorted(lat), "dom": dom, "edges": [list(e) for e in edges],
+                        "rows": rows, "th0": th0})
+    return out
+
+
+EM_CFG = ("INIT Init\nNEXT Next\nINVARIANT WellFormed\nINVARIANT StepIsCPD\nINVARIANT WeightsPartition\nINVARIANT ObservedPartIsMLE\n"
+          "INVARIANT InitOfObservedPartIrrelevant\nINVARIANT RowOrderInvariant\nINVARIANT Emit\n")
+
 GEN_CFG = ("INIT Init\nNEXT Next\nINVARIANT WellFormed\nINVARIANT ResultIsCPD\nINVARIANT ClosedForms\nINVARIANT RowOrderInvariant\n"
            "INVARIANT ExpandInvariant\nINVARIANT CountsCoverData\nINVARIANT UpdateRootPooled\nINVARIANT PriorVanishes\nINVARIANT Emit\n")
 GEN_ACTIONS = ["FitMLE", "FitK2", "FitBDeu", "FitDirScalar", "FitDirTable", "FitUpdate"]
@@ -353,8 +413,8 @@ def replay_one(case, inst, seed, hs, p_nj2=0.0, stub=None):
         out, seen = [], set()
         for v in cols:
             r = check_cpd(cpds_by_var.get(conc.vn[v]), conc, v, exp[v], lists, strict)
-            if r and r[0] not in seen:
-                seen.add(r[0])
+            if r and (r[0], v in isolated) not in seen:
+                seen.add((r[0], v in isolated))
                 extra = {"isolated_node": v in isolated} if (r[0] == "missing_cpd" or feats.get("estimator") == "update") else {}
                 out.append(viol(api, r[0], r[1], {"node": v, "cells": exp[v]["cells"][:6]}, **extra, **more))
         return out
@@ -530,13 +590,689 @@ def replay_gen(payload):
     return {"n": len(payload["cases"]), "calls": ncalls, "fails": fails[:int(os.environ.get("C06_MAXFAILS", "60"))], "nfails": len(fails)}
 
 
+# ------------------------------------------------------------------------------------------- EM with latent variables
+class EConc:
+    """concretisation of a latent-variable instance.  Latent states are the integers 0..card-1 (EM fixes that)."""
+
+    def __init__(self, inst, rng):
+        from ..concretise import state_names, var_names
+        nodes = inst["obs"] + inst["lat"]
+        self.vn = var_names(nodes, rng, "str")
+        self.inv = {c: t for t, c in self.vn.items()}
+        self.sn, self.dtype = {}, {}
+        for c in inst["obs"]:
+            k = rng.choice(["int", "range", "str", "str"])
+            self.sn[c] = state_names(inst["dom"][c], rng, k)
+            self.dtype[c] = rng.choice(["int64", "category"]) if k in ("int", "range") else rng.choice(["object", "category"])
+        for c in inst["lat"]:
+            self.sn[c] = {s: j for j, s in enumerate(inst["dom"][c])}
+
+    def labels(self, c, toks):
+        return [self.sn[c][t] for t in toks]
+
+
+def _loglik(cpds, rows, lat_labels):
+    """observed-data log-likelihood of weighted concrete rows under a list of CPDs, by brute-force summation over the
+    latent assignments (harness-side evaluation, stated as an assumption of the check)."""
+    import itertools
+    lats = list(lat_labels)
+    ll = 0.0
+    for a, w in rows:
+        tot = 0.0
+        for combo in itertools.product(*[lat_labels[l] for l in lats]):
+            full = dict(a)
+            full.update(dict(zip(lats, combo)))
+            pr = 1.0
+            for c in cpds:
+                vals = _to_np(c.values)
+                pr *= float(vals[tuple(c.name_to_no[x][full[x]] for x in c.variables)])
+            tot += pr
+        ll += w * (math.log(tot) if tot > 0 else -1e3)
+    return ll
+
+
+def _scaled(ll):
+    return int(math.floor(max(ll, -2000.0) * 1e6))
+
+
+def replay_em_one(case, inst, seed, hs, K, stub=None):
+    """exact first iteration, composition of iterations, likelihood sequences.  Returns (ncalls, violations, ll-traces)."""
+    from pgmpy.factors.discrete import TabularCPD
+    C = _classes()
+    rng = _case_rng(seed, hs, case)
+    conc = EConc(inst, rng)
+    obs, lat = inst["obs"], inst["lat"]
+    nodes = obs + lat
+    edges = [tuple(e) for e in inst["edges"]]
+    exp = {c["v"]: c for c in case["cpds"]}
+    given = sorted(case["given"])
+    feats = {"estimator": "em", "latents": len(lat), "ncols": len(obs)}
+    detail = {"given": given}
+    ncalls = [0]
+
+    def viol(api, clause, observed=None, expected=None, **more):
+        f = dict(feats)
+        f.update(more)
+        return {"api": api, "clause": clause, "features": f, "observed": observed, "expected": expected, "detail": dict(detail),
+                "case": {"kind": "em", "inst": inst, "case": case, "seed": seed, "hashseed": hs, "K": K}}
+
+    observed_all = all(any(r["a"][c] == s for r in inst["rows"]) for c in obs for s in inst["dom"][c])
+    pseudo_case = {"dom": {c: inst["dom"][c] for c in obs}}
+    arg, lists, strict = state_lists(conc, pseudo_case, rng, (not observed_all) or rng.random() < 0.5)
+    for l in lat:
+        lists[l] = list(range(len(inst["dom"][l])))
+        strict[l] = False
+    pseudo_inst = {"cols": obs, "dom": inst["dom"]}
+    snkw = {} if arg is None else {"state_names": arg}
+    lat_card = {conc.vn[l]: len(inst["dom"][l]) for l in lat}
+    lckw = {} if (all(v == 2 for v in lat_card.values()) and rng.random() < 0.4) else {"latent_card": lat_card}
+
+    def model(r=None):
+        r = r or rng
+        cls = C["BN"] if r.random() < 0.7 else C["DAG"]
+        m = cls()
+        ns = list(nodes)
+        r.shuffle(ns)
+        for n in ns:
+            m.add_node(conc.vn[n], latent=n in lat)
+        es = [(conc.vn[u], conc.vn[v]) for u, v in edges]
+        r.shuffle(es)
+        for u, v in es:
+            m.add_edge(u, v)
+        return m
+
+    def cpd_from(v, cells, as_frac):
+        ps = list(exp[v]["ps"])
+        rng.shuffle(ps)
+        ll = {x: list(lists[x]) for x in [v] + ps}
+        for x in ll:
+            if x in lat and rng.random() < 0.3:
+                rng.shuffle(ll[x])
+        tab = table_2d(conc, v, ps, ll, cells)
+        return TabularCPD(conc.vn[v], len(ll[v]), tab, evidence=[conc.vn[p] for p in ps] or None,
+                          evidence_card=[len(ll[p]) for p in ps] or None, state_names={conc.vn[x]: ll[x] for x in [v] + ps})
+
+    th0_cells = {v: [{"a": c["a"], "p": [c["n"], inst["th0"][v]["den"]]} for c in inst["th0"][v]["cells"]] for v in nodes}
+
+    def em(max_iter, init_cells, seed_=None):
+        df = make_df(conc, pseudo_inst, inst["rows"], rng, "expand")
+        init = {conc.vn[v]: cpd_from(v, init_cells[v], True) for v in given} if init_cells else {}
+        ncalls[0] += 1
+        kw = dict(lckw)
+        mdl = model()
+        if seed_ is not None:
+            # the random start depends on the seed AND on the parent order of the model: the same construction order every time
+            kw["seed"] = seed_
+            mdl = model(random.Random(seed_))
+        if stub:
+            return stub(mdl, df, snkw, kw, max_iter, init)
+        return C["em"](mdl, df, **snkw).get_parameters(max_iter=max_iter, init_cpds=init, show_progress=False, **kw)
+
+    api = "ExpectationMaximization.get_parameters"
+    vs, traces = [], []
+    try:
+        # (iii) the first iteration from the given start equals the specification's exact E+M step
+        res = em(1, th0_cells)
+        got = {c.variable: c for c in res}
+        for v in nodes:
+            r = check_cpd(got.get(conc.vn[v]), conc, v, exp[v], lists, strict)
+            if r:
+                vs.append(viol(api, "first_iteration." + r[0], r[1], {"node": v, "cells": exp[v]["cells"][:6]},
+                               latent_involved=v in lat or any(p in lat for p in exp[v]["ps"])))
+                break
+        if not vs:
+            bn = C["BN"]()
+            bn.add_nodes_from(conc.vn[n] for n in nodes)
+            bn.add_edges_from((conc.vn[u], conc.vn[v]) for u, v in edges)
+            bn.add_cpds(*res)
+            try:
+                ok = bn.check_model()
+            except Exception as ex:  # noqa
+                ok = repr(ex)[:200]
+            if ok is not True:
+                vs.append(viol(api, "check_model", ok, True))
+        # composition: two iterations from the start = one iteration from the specification's first iterate
+        if not vs:
+            r2 = {c.variable: c for c in em(2, th0_cells)}
+            r1 = {c.variable: c for c in em(1, {v: exp[v]["cells"] for v in nodes})}
+            for v in nodes:
+                a, b = r2.get(conc.vn[v]), r1.get(conc.vn[v])
+                cells = []
+                if a is None or b is None:
+                    vs.append(viol(api, "second_iteration.missing_cpd", None, None))
+                    break
+                fam = [conc.inv[x] for x in a.variables]
+                import itertools
+                bad = None
+                for combo in itertools.product(*[inst["dom"][t] for t in fam]):
+                    ia = tuple(a.name_to_no[conc.vn[t]][conc.sn[t][s]] for t, s in zip(fam, combo))
+                    ib = tuple(b.name_to_no[x][conc.sn[conc.inv[x]][dict(zip(fam, combo))[conc.inv[x]]]] for x in b.variables)
+                    xa, xb = float(_to_np(a.values)[ia]), float(_to_np(b.values)[ib])
+                    if not abs(xa - xb) <= 1e-6:
+                        bad = {"a": dict(zip(fam, combo)), "two_iterations": xa, "one_from_first_iterate": xb}
+                        break
+                if bad:
+                    vs.append(viol(api, "second_iteration.value", bad, None))
+                    break
+        # (ii) likelihood never decreases: runs of 0..K iterations from the same start
+        rows_c = []
+        for r in inst["rows"]:
+            rows_c.append(({conc.vn[c]: conc.sn[c][r["a"][c]] for c in obs}, r["w"][0]))
+        latl = {conc.vn[l]: list(range(len(inst["dom"][l]))) for l in lat}
+        if set(given) == set(nodes):
+            start = [cpd_from(v, th0_cells[v], True) for v in nodes]
+            lls = [_loglik(start, rows_c, latl)] + [_loglik(em(k, th0_cells), rows_c, latl) for k in range(1, K + 1)]
+            traces.append({"ev": "em_ll", "ll": [_scaled(x) for x in lls], "raw": lls, "start": "given", "inst": inst["id"]})
+        sd = rng.randint(0, 10 ** 6)
+        lls = [_loglik(em(k, None, sd), rows_c, latl) for k in range(1, K + 1)]
+        traces.append({"ev": "em_ll", "ll": [_scaled(x) for x in lls], "raw": lls, "start": "seed", "inst": inst["id"]})
+    except Exception as ex:  # noqa
+        if os.environ.get("C06_DEBUG"):
+            raise
+        vs.append(viol(api, "raises", repr(ex)[:300]))
+    for t in traces:
+        t["case"] = {"kind": "em", "inst": inst, "case": case, "seed": seed, "hashseed": hs, "K": K}
+        t["features"] = dict(feats)
+    return ncalls[0], vs, traces
+
+
+def replay_em(payload):
+    insts = {i["id"]: i for i in payload["insts"]}
+    hs = int(os.environ.get("PYTHONHASHSEED", "0"))
+    fails, traces, ncalls = [], [], 0
+    for case in payload["cases"]:
+        n, vs, ts = replay_em_one(case, insts[case["inst"]], payload["seed"], hs, payload["K"])
+        ncalls += n
+        fails += vs
+        traces += ts
+    return {"n": len(payload["cases"]), "calls": ncalls, "fails": fails[:60], "nfails": len(fails), "traces": traces}
+
+
+# ------------------------------------------------------------------------------------------- RECORD -> VALIDATE (Trace_C06)
+DMAX = 10 ** 6
+
+
+def _rat(x):
+    from fractions import Fraction
+    f = Fraction(float(x)).limit_denominator(DMAX)
+    return [f.numerator, f.denominator]
+
+
+def _layout(cells, v, ps, dom):
+    """named cells -> 2-D table in the abstract layout Trace_C06 reads (rows: dom[v]; columns row-major over ps, dom orders)"""
+    import itertools
+    cm = _cellmap(cells)
+    tab = []
+    for s_ in dom[v]:
+        row = []
+        for combo in itertools.product(*[dom[p] for p in ps]):
+            a = {v: s_}
+            a.update(dict(zip(ps, combo)))
+            row.append(cm[tuple(sorted(a.items()))])
+        tab.append(row)
+    return tab
+
+
+def _project(cpd, conc, v, ps, dom):
+    """a returned CPD, every cell looked up by NAME, in the abstract layout: (table of [n, d], table of raw floats) or a clause"""
+    import itertools
+    if cpd.variables[0] != conc.vn[v] or set(cpd.variables[1:]) != {conc.vn[p] for p in ps} or len(cpd.variables) != len(ps) + 1:
+        return "parents", repr(list(cpd.variables))
+    fam = [v] + list(ps)
+    for t in fam:
+        if set(cpd.state_names[conc.vn[t]]) != {conc.sn[t][s_] for s_ in dom[t]} or len(cpd.state_names[conc.vn[t]]) != len(dom[t]):
+            return "state_names", repr(cpd.state_names[conc.vn[t]])
+    vals = _to_np(cpd.values)
+    tab, raw = [], []
+    for s_ in dom[v]:
+        row, rrow = [], []
+        for combo in itertools.product(*[dom[p] for p in ps]):
+            a = {v: s_}
+            a.update(dict(zip(ps, combo)))
+            x = float(vals[tuple(cpd.name_to_no[x_][conc.sn[conc.inv[x_]][a[conc.inv[x_]]]] for x_ in cpd.variables)])
+            if math.isnan(x) or math.isinf(x):
+                return "nan", repr((a, x))
+            row.append(_rat(x))
+            rrow.append(x)
+        tab.append(row)
+        raw.append(rrow)
+    return tab, raw
+
+
+def record_one(spec):
+    """one recorded call on seeded random data larger than what Gen_C06 enumerates.  Returns (trace or None, violations)."""
+    from pgmpy.factors.discrete import TabularCPD
+    K = _classes()
+    rng = random.Random(f"rec:{spec['seed']}:{spec['tid']}")
+    ncol = rng.choice([4, 5, 5, 6])
+    cards = tuple(rng.choice([1, 2, 2, 3, 3, 4]) for _ in range(ncol))
+    extras = tuple(rng.choice([0, 0, 0, 1]) for _ in range(ncol))
+    wkind = rng.choice(["unit", "int", "frac"])
+    ev = spec["ev"]
+    if ev == "update":
+        wkind = rng.choice(["unit", "int"])
+    inst = data_instance(rng, f"T{spec['tid']}", cards, extras, rng.randint(15, 40), wkind)
+    cols = inst["cols"]
+    # random DAG with at most three parents per node
+    order = list(cols)
+    rng.shuffle(order)
+    parents = {c: [] for c in cols}
+    dens = rng.choice([0.2, 0.4, 0.7])
+    for i, u in enumerate(order):
+        for v in order[i + 1:]:
+            if rng.random() < dens and len(parents[v]) < 3:
+                parents[v].append(u)
+    edges = [(u, v) for v in cols for u in parents[v]]
+    isolated = {c for c in cols if all(c not in e for e in edges)}
+    sn_mode = rng.choice(["declared", "observed"])
+    if sn_mode == "declared":
+        dom = {c: list(inst["dom"][c]) for c in cols}
+    else:
+        dom = {c: [s for s in inst["dom"][c] if any(r["a"][c] == s for r in inst["rows"])] for c in cols}
+    conc = DConc(inst, rng)
+    case = {"dom": dom}
+    arg, lists, strict = state_lists(conc, case, rng, sn_mode == "declared" or ev == "update")
+    kind = rng.choice(["mle", "k2", "bdeu", "dir_scalar", "dir_table"]) if ev == "fit" else "update"
+    x = _frac(rng.choice([1, 2, 3, 5, 7, 10]), rng.choice([1, 1, 2, 4]))
+    tr = {"tid": spec["tid"], "ev": ev, "dom": dom, "parents": parents, "prior": {"kind": kind, "x": x}, "nprev": 0}
+    feats = {"estimator": "mle" if kind == "mle" else ("update" if ev == "update" else "bayes")}
+    meta = {"features": feats, "detail": {"kind": kind, "sn": sn_mode, "ncols": ncol}, "case": {"kind": "rec", "spec": spec},
+            "isolated": sorted(isolated), "prev_sorted": {}}
+
+    def viol(api, clause, observed=None, expected=None, **more):
+        f = dict(feats)
+        f.update(more)
+        return {"api": api, "clause": clause, "features": f, "observed": observed, "expected": expected, "detail": meta["detail"],
+                "case": meta["case"]}
+
+    def rand_cells(v, lo, hi, den):
+        import itertools
+        fam = [v] + parents[v]
+        return [{"a": dict(zip(fam, combo)), "p": _frac(rng.randint(lo, hi), den)} for combo in itertools.product(*[dom[t] for t in fam])]
+
+    try:
+        if ev == "fit":
+            allone = all(r["w"] == [1, 1] for r in inst["rows"])
+            intw = all(r["w"][1] == 1 and r["w"][0] >= 1 for r in inst["rows"])
+            mode = rng.choice(["plain", "weighted"]) if allone else (rng.choice(["expand", "weighted"]) if intw else "weighted")
+            tr["rows"] = inst["rows"]
+            df = make_df(conc, inst, inst["rows"], rng, mode)
+            c2 = {"kind": kind, "pk": "none", "x": x, "dom": dom, "alpha": [], "cpds": [{"v": v, "ps": parents[v]} for v in cols]}
+            if kind == "dir_table":
+                tr["alpha"] = {v: rand_cells(v, 0 if rng.random() < 0.3 else 1, 6, rng.choice([1, 2])) for v in cols}
+                for v in cols:                      # no all-zero pseudo-count column
+                    for c in tr["alpha"][v]:
+                        if c["a"][v] == dom[v][0] and c["p"][0] == 0:
+                            c["p"] = [1, 1]
+                c2["alpha"] = [{"v": v, "cells": tr["alpha"][v]} for v in cols]
+                tr["alpha"] = {v: _layout(tr["alpha"][v], v, parents[v], dom) for v in cols}
+            est, kw = _est_call(c2, conc, lists, rng, mode == "weighted")
+            snkw = {} if arg is None else {"state_names": arg}
+            bn = make_model(conc, inst, edges, rng, K["BN"])
+            api = "BayesianNetwork.fit" if rng.random() < 0.5 else API_NAMES[("get_parameters", est)]
+            if api == "BayesianNetwork.fit":
+                bn.fit(df, estimator=K[est], **snkw, **kw)
+                res = bn.get_cpds()
+            else:
+                res = K[est](bn, df, **snkw).get_parameters(**kw)
+        else:
+            api = "BayesianNetwork.fit_update"
+            bn = make_model(conc, inst, edges, rng, K["BN"])
+            tr["prev"] = {}
+            for v in cols:
+                import itertools
+                den = rng.choice([6, 10, 12])
+                cells = []
+                for combo in itertools.product(*[dom[p] for p in parents[v]]):
+                    r = len(dom[v])
+                    cuts = sorted(rng.sample(range(1, den), r - 1)) if r > 1 else []
+                    col = [b - a for a, b in zip([0] + cuts, cuts + [den])]
+                    for s_, n in zip(dom[v], col):
+                        a = {v: s_}
+                        a.update(dict(zip(parents[v], combo)))
+                        cells.append({"a": a, "p": _frac(n, den)})
+                tr["prev"][v] = _layout(cells, v, parents[v], dom)
+                ps = list(parents[v])
+                rng.shuffle(ps)
+                meta["prev_sorted"][v] = [conc.vn[p] for p in ps] == sorted(conc.vn[p] for p in ps)
+                bn.add_cpds(TabularCPD(conc.vn[v], len(lists[v]), table_2d(conc, v, ps, lists, cells),
+                                       evidence=[conc.vn[p] for p in ps] or None, evidence_card=[len(lists[p]) for p in ps] or None,
+                                       state_names={conc.vn[t]: list(lists[t]) for t in [v] + ps}))
+            rows2 = inst["rows"]
+            tr["rows"] = rows2
+            np_ = rng.choice([None, 1, 5, 20, 50])
+            tr["nprev"] = np_ if np_ is not None else sum(r["w"][0] for r in rows2)
+            df = make_df(conc, inst, rows2, rng, "expand")
+            bn.fit_update(df, n_prev_samples=np_)
+            res = bn.get_cpds()
+    except Exception as ex:  # noqa
+        if os.environ.get("C06_DEBUG"):
+            raise
+        return None, [viol(api if "api" in dir() else "record", "raises", repr(ex)[:300], has_isolated_node=bool(isolated))], meta
+    got, raw = {}, {}
+    for c in res:
+        v = conc.inv.get(c.variable)
+        tab, r = _project(c, conc, v, parents[v], dom)
+        if isinstance(tab, str):
+            return None, [viol(api, tab, r, None)], meta
+        got[v], raw[v] = tab, r
+    tr["got"] = got
+    meta["raw"] = raw
+    meta["api"] = api
+    return tr, [], meta
+
+
+def record(payload):
+    traces, fails, metas = [], [], {}
+    for spec in payload["specs"]:
+        tr, vs, meta = record_one(spec)
+        fails += vs
+        if tr is not None:
+            traces.append(tr)
+            metas[str(spec["tid"])] = meta
+    return {"n": len(payload["specs"]), "calls": len(payload["specs"]), "traces": traces, "fails": fails, "metas": metas}
+
+
+def work(payload):
+    """dispatcher so that all kinds of jobs run side by side in one run_workers call"""
+    return {"job": payload["job"], "res": {"gen": replay_gen, "em": replay_em, "rec": record}[payload["job"]](payload)}
+
+
+# =========================================================================== orchestration (no pgmpy / numpy here)
+TRACE_CFG = "CONSTANT Slack = 2\nINIT Init\nNEXT Next\nINVARIANT Report\n"
+KINDS = {"mle", "k2", "bdeu", "dir_scalar", "dir_table", "update"}
+
+
+def _gen_cases(ctx, insts, tag="Gen", timeout=7200):
+    f = os.path.join(ctx.work, f"inst_{tag}.json")
+    with open(f, "w") as fh:
+        json.dump(insts, fh)
+    r = ctx.tlc("Gen_C06", GEN_CFG, env={"INST_FILE": f}, tag=tag, coverage=True, timeout=timeout)
+    return r.prints
+
+
+def _em_cases(ctx, insts, tag="GenEM"):
+    f = os.path.join(ctx.work, f"inst_{tag}.json")
+    with open(f, "w") as fh:
+        json.dump(insts, fh)
+    r = ctx.tlc("Gen_C06EM", EM_CFG, env={"INST_FILE": f}, tag=tag, coverage=True)
+    return r.prints
+
+
+def _cell_index(tr, v, a):
+    ps = tr["parents"][v]
+    i = tr["dom"][v].index(a[v])
+    j = 0
+    for p in ps:
+        j = j * len(tr["dom"][p]) + tr["dom"][p].index(a[p])
+    return i, j
+
+
+def validate_traces(ctx, traces, metas, tag="Trace"):
+    """TLC validates every recorded trace; returns (accepted, violations).  A `value` rejection is re-checked on the raw float
+    against TLC's exact expected value, so that a rationalisation artefact can never become a false alarm."""
+    if not traces:
+        return 0, []
+    f = os.path.join(ctx.work, f"traces_{tag}.json")
+    with open(f, "w") as fh:
+        json.dump(traces, fh)
+    r = ctx.tlc("Trace_C06", TRACE_CFG, env={"TRACE_FILE": f}, tag=tag, coverage=True, timeout=7200)
+    verd = {p["tid"]: p["v"] for p in r.prints}
+    if set(verd) != {t["tid"] for t in traces} or len(r.prints) != len(traces):
+        raise Machinery(f"Trace_C06: {len(r.prints)} verdicts for {len(traces)} traces")
+    by = {t["tid"]: t for t in traces}
+    acc, out = 0, []
+    for tid, v in sorted(verd.items()):
+        if v["clause"] == "ACCEPT":
+            acc += 1
+            continue
+        tr, m = by[tid], metas[tid]
+        feats = dict(m["features"])
+        if tr["ev"] == "em_ll":
+            k = v["at"][0]
+            out.append({"api": "ExpectationMaximization.get_parameters", "clause": "likelihood_decreased", "features": feats,
+                        "observed": {"iterations": [k - 1 + m.get("first_k", 0), k + m.get("first_k", 0)], "loglik": m["raw"][k - 1:k + 1]},
+                        "expected": "ll[k+1] >= ll[k] - 2e-6", "detail": {"start": m.get("start"), "all": m["raw"]}, "case": m["case"]})
+            continue
+        node = v["node"]
+        if v["clause"] == "value":
+            i, j = _cell_index(tr, node, v["at"])
+            x = m["raw"][node][i][j]
+            n, d = v["want"]
+            if d != 0 and abs(x - n / d) <= 1e-9 * max(1.0, abs(n / d)):
+                raise Machinery(f"Trace_C06: rationalisation artefact at trace {tid} node {node}: {x} vs {n}/{d}")
+            obs = {"node": node, "a": v["at"], "got": x}
+        else:
+            obs = {"node": node}
+        if feats.get("estimator") == "update":
+            feats["prev_parents_sorted"] = all(m["prev_sorted"].values()) if v["clause"] != "value" else bool(m["prev_sorted"].get(node))
+            feats["isolated_node"] = node in m["isolated"]
+        elif v["clause"] == "missing_cpd":
+            feats["isolated_node"] = node in m["isolated"]
+        out.append({"api": m["api"], "clause": v["clause"], "features": feats, "observed": obs, "expected": {"want": v["want"]},
+                    "detail": m["detail"], "case": m["case"]})
+    return acc, out
+
+
+def _collect(ctx, results):
+    """fold worker results; returns the traces still to be validated by TLC with their metadata"""
+    traces, metas = [], {}
+    for wr in results:
+        res = wr["res"]
+        ctx.evaluations += res["calls"]
+        for fl in res["fails"]:
+            ctx.violation(fl)
+        if wr["job"] == "gen":
+            ctx.traces += res["n"]
+            if res["nfails"] > len(res["fails"]):
+                ctx.extra["violations_truncated"] = ctx.extra.get("violations_truncated", 0) + res["nfails"] - len(res["fails"])
+        elif wr["job"] == "em":
+            ctx.traces += res["n"]
+            for t in res["traces"]:
+                tid = len(traces) + 1
+                traces.append({"tid": tid, "ev": "em_ll", "ll": t["ll"]})
+                metas[tid] = {"features": t["features"], "raw": t["raw"], "start": t["start"], "case": t["case"],
+                              "first_k": 0 if t["start"] == "given" else 1}
+        else:
+            for t in res["traces"]:
+                m = res["metas"][str(t["tid"])]
+                tid = len(traces) + 1
+                t = dict(t)
+                t["tid"] = tid
+                traces.append(t)
+                metas[tid] = m
+    return traces, metas
+
+
 def run(ctx):
-    raise Machinery("not yet")
+    ctx.rule = ("Gen_C06: data sets of 1-4 columns (1-3 occurring states + declared-but-unobserved ones, <= 12 weighted rows) x EVERY DAG over "
+                "the columns (a seeded sample of DAGs for most 4-column data sets) x declared/observed state mode x {MLE, K2, BDeu(ess), "
+                "Dirichlet scalar, Dirichlet table, update(prev estimator, n_prev)}; distinct = (instance, DAG, mode, estimator, parameters) "
+                "with >= 1 edge.  Gen_C06EM: fixed pool of latent-variable models x sets of given initial CPDs.  Trace_C06: recorded fits on "
+                "random 4-6 column data (15-40 rows, card <= 4(+1)) and EM likelihood sequences.")
+    ctx.assumptions += [
+        "EM likelihood monotonicity is decided on observed-data log-likelihoods computed by the harness from the returned CPDs "
+        "(brute-force sum over latent assignments, math.log), scaled by 1e6; TLC checks the action property ll' >= ll - 2e-6",
+        "EM beyond the first iteration is checked by composition (2 iterations = 1 iteration from TLC's exact first iterate, 1e-6) "
+        "and monotonicity only; initial CPDs are strictly positive (pgmpy floors likelihoods at 1e-10)",
+        "column names are strings (integer names hit pandas' level-number reading of unstack and EM's keyword lookup); state labels "
+        "are ints or strings of one type per column; max_iter >= 1 (max_iter = 0 raises UnboundLocalError in pgmpy and is not demanded)",
+        "explicit pseudo-count tables are laid out over the estimator's sorted parents and its state order (the library's convention)",
+        "float results compared at 1e-9 (numpy) / 1e-6 (torch, float32 tensors) against TLC's exact rationals",
+    ]
+    rng = random.Random(ctx.seed + 6)
+    insts = gen_instances(rng, ctx.thorough)
+    cases = _gen_cases(ctx, insts)
+    ctx.require_actions(["Finish", "FitBDeu", "FitDirScalar", "FitEarlier", "FitUpdate"])
+    if {c["kind"] for c in cases} != KINDS:
+        raise Machinery(f"vacuity: estimator kinds generated: {sorted({c['kind'] for c in cases})}")
+    ctx.exhaustive = True
+    for c in cases:
+        ctx.count(json.dumps([c["inst"], sorted(c["edges"]), c["sn"], c["kind"], c["x"], c["pk"], c["nprev"]]),
+                  nontrivial=len(c["edges"]) >= 1, n=0)
+    ctx.sample({"kind": "gen", "inst": cases[-1]["inst"], "edges": cases[-1]["edges"], "estimator": cases[-1]["kind"],
+                "expected": cases[-1]["cpds"][0]})
+    em_insts = em_instances(ctx.thorough)
+    em_cases = _em_cases(ctx, em_insts)
+    ctx.require_actions(["Step"])
+    for c in em_cases:
+        ctx.count(json.dumps(["em", c["inst"], sorted(c["given"])]), n=0)
+    ctx.sample({"kind": "em_first_iteration", "inst": em_cases[-1]["inst"], "given": em_cases[-1]["given"], "expected": em_cases[-1]["cpds"][0]})
+
+    hseeds = HSEEDS_T if ctx.thorough else HSEEDS_Q
+    nchunk = 2 if ctx.thorough else 3
+    K = 6 if ctx.thorough else 3
+    nrec = 400 if ctx.thorough else 64
+    jobs = []
+    order = list(range(len(cases)))
+    random.Random(ctx.seed).shuffle(order)                       # balance the chunks
+    shuffled_cases = [cases[i] for i in order]
+    for hs in hseeds:
+        for ch in chunks(shuffled_cases, nchunk):
+            jobs.append((hs, {"job": "gen", "insts": insts, "cases": ch, "seed": ctx.seed, "p_nj2": 0.01}))
+    for k, hs in enumerate(hseeds):
+        part = [c for j, c in enumerate(em_cases) if ctx.thorough or len(hseeds) == 1 or j % len(hseeds) == k] if not ctx.thorough else em_cases
+        jobs.append((hs, {"job": "em", "insts": em_insts, "cases": part, "seed": ctx.seed, "K": K}))
+    specs = [{"tid": k + 1, "seed": ctx.seed, "ev": "update" if k % 4 == 0 else "fit"} for k in range(nrec)]
+    nrecw = 4 if ctx.thorough else 2
+    for k, ch in enumerate(chunks(specs, nrecw)):
+        jobs.append((hseeds[k % len(hseeds)], {"job": "rec", "specs": ch}))
+    results = run_workers(ctx, "c06", "work", jobs)
+    traces, metas = _collect(ctx, results)
+    if ctx.thorough:                                             # torch back-end: one hash seed, half of the cases
+        tj = [(0, {"job": "gen", "insts": insts, "cases": ch, "seed": ctx.seed + 1, "p_nj2": 0.0})
+              for ch in chunks(shuffled_cases[::2], 3)]
+        tj.append((0, {"job": "em", "insts": em_insts, "cases": em_cases[::2], "seed": ctx.seed + 1, "K": 3}))
+        t2, m2 = _collect(ctx, run_workers(ctx, "c06", "work", tj, backend="torch"))
+        off = len(traces)
+        for t in t2:
+            metas[t["tid"] + off] = m2[t["tid"]]
+            t["tid"] += off
+            traces.append(t)
+    acc, vs = validate_traces(ctx, traces, metas)
+    ctx.require_actions(["ValidateFit", "ValidateLL"])
+    ctx.traces += acc
+    for v in vs:
+        ctx.violation(v)
+    ctx.extra["recorded_traces"] = {"fit_or_update": sum(1 for t in traces if t["ev"] != "em_ll"),
+                                    "em_likelihood_sequences": sum(1 for t in traces if t["ev"] == "em_ll"), "accepted": acc}
+    lls = [t for t in traces if t["ev"] == "em_ll"]
+    if lls:
+        ctx.sample({"kind": "em_loglik_sequence(x1e6)", "ll": lls[0]["ll"]})
 
 
 def replay(ctx, rec):
-    return None
+    case = rec["case"]
+    if case["kind"] == "gen":
+        res = run_workers(ctx, "c06", "work", [(case["hashseed"], {"job": "gen", "insts": [case["inst"]], "cases": [case["case"]],
+                                                                  "seed": case["seed"], "p_nj2": case.get("p_nj2", 0.0)})])
+        fails = res[0]["res"]["fails"]
+    elif case["kind"] == "em":
+        res = run_workers(ctx, "c06", "work", [(case["hashseed"], {"job": "em", "insts": [case["inst"]], "cases": [case["case"]],
+                                                                  "seed": case["seed"], "K": case["K"]})])
+        fails = list(res[0]["res"]["fails"])
+        traces, metas = _collect(Ctx_dummy(ctx), res)
+        fails += validate_traces(ctx, traces, metas, tag="replay")[1]
+    else:
+        res = run_workers(ctx, "c06", "work", [(case["spec"].get("hashseed", 0), {"job": "rec", "specs": [case["spec"]]})])
+        fails = list(res[0]["res"]["fails"])
+        traces, metas = _collect(Ctx_dummy(ctx), res)
+        fails += validate_traces(ctx, traces, metas, tag="replay")[1]
+    same = [f for f in fails if f["api"] == rec.get("api") and f["clause"] == rec.get("clause")]
+    return (same or fails)[:1] or None
+
+
+class Ctx_dummy:
+    """accounting sink for _collect during replay (violations are returned, not registered)"""
+
+    def __init__(self, ctx):
+        self.evaluations, self.traces, self.extra = 0, 0, {}
+
+    def violation(self, rec):
+        return False
+
+
+def _corrupt(cells):
+    c = json.loads(json.dumps(cells))
+    n, d = c[0]["p"]
+    c[0]["p"] = [0, 1] if n == d else [n + 1, d + 1]
+    return c
 
 
 def selftest(ctx):
-    raise Machinery("not yet")
+    """anti-vacuity: (1) TLC's expected tables with one cell altered must be rejected by the replayer for EVERY case (one-shot fits,
+    updates, EM first iteration); (2) a deliberately wrong stub (previous sample size off by one) must be rejected; (3) hand-written
+    traces: the correct one is accepted, an altered cell / a dropped CPD / a decreasing likelihood sequence is rejected by TLC with the
+    right clause and expected value; (4) every generator action was taken."""
+    rng = random.Random(1)
+    inst = data_instance(rng, "S0", (2, 3), (1, 0), 7, "int")
+    cases = _gen_cases(ctx, [inst], tag="self")
+    ctx.require_actions(["Finish", "FitBDeu", "FitDirScalar", "FitEarlier", "FitUpdate"])
+    bad = []
+    for c in cases:
+        c = json.loads(json.dumps(c))
+        c["cpds"][0]["cells"] = _corrupt(c["cpds"][0]["cells"])
+        bad.append(c)
+    em_insts = em_instances(False)[:4]
+    em_cases = _em_cases(ctx, em_insts, tag="selfEM")
+    ebad = []
+    for c in em_cases:
+        c = json.loads(json.dumps(c))
+        c["cpds"][0]["cells"] = _corrupt(c["cpds"][0]["cells"])
+        ebad.append(c)
+    res = run_workers(ctx, "c06", "selftest_worker", [(0, {"insts": [inst], "cases": bad, "good": cases, "em_insts": em_insts, "em_cases": ebad})])[0]
+    if res["accepted_corrupt"]:
+        raise Machinery(f"selftest: {res['accepted_corrupt']} case(s) with an altered expected cell were accepted")
+    if res["accepted_corrupt_em"]:
+        raise Machinery(f"selftest: {res['accepted_corrupt_em']} EM case(s) with an altered expected cell were accepted")
+    if not res["stub_rejected"]:
+        raise Machinery("selftest: fit_update stub with n_prev_samples off by one was never rejected")
+    # (3) hand-written traces
+    rows = [{"a": {"v0": "s0", "v1": "s0"}, "w": [1, 1]}, {"a": {"v0": "s0", "v1": "s1"}, "w": [2, 1]}, {"a": {"v0": "s1", "v1": "s1"}, "w": [1, 1]}]
+    base = {"ev": "fit", "dom": {"v0": ["s0", "s1"], "v1": ["s0", "s1"]}, "parents": {"v0": [], "v1": ["v0"]}, "prior": {"kind": "mle", "x": [0, 1]},
+            "nprev": 0, "rows": rows}
+    good = {"v0": [[[3, 4]], [[1, 4]]], "v1": [[[1, 3], [0, 1]], [[2, 3], [1, 1]]]}
+    t1 = dict(base, tid=1, got=good)
+    t2 = dict(base, tid=2, got={"v0": good["v0"], "v1": [[[2, 3], [0, 1]], [[1, 3], [1, 1]]]})      # transposed column
+    t3 = dict(base, tid=3, got={"v1": good["v1"]})
+    t4 = {"tid": 4, "ev": "em_ll", "ll": [-5000000, -4000000, -4000001, -3999999]}
+    t5 = {"tid": 5, "ev": "em_ll", "ll": [-5000000, -4000000, -4000010]}
+    t6 = dict(base, tid=6, prior={"kind": "k2", "x": [0, 1]}, got={"v0": [[[2, 3]], [[1, 3]]], "v1": [[[2, 5], [1, 3]], [[3, 5], [2, 3]]]})
+    f = os.path.join(ctx.work, "self_traces.json")
+    with open(f, "w") as fh:
+        json.dump([t1, t2, t3, t4, t5, t6], fh)
+    r = ctx.tlc("Trace_C06", TRACE_CFG, env={"TRACE_FILE": f}, tag="selfTrace", coverage=True)
+    ctx.require_actions(["ValidateFit", "ValidateLL"])
+    v = {p["tid"]: p["v"] for p in r.prints}
+    want = {1: "ACCEPT", 2: "value", 3: "missing_cpd", 4: "ACCEPT", 5: "ll_decreased", 6: "ACCEPT"}
+    got = {k: v[k]["clause"] for k in sorted(v)}
+    if got != want:
+        raise Machinery(f"selftest: trace verdicts {got}, expected {want}")
+    if v[2]["node"] != "v1" or v[2]["want"] not in ([1, 3], [2, 3]):
+        raise Machinery(f"selftest: wrong diagnostic for the altered trace: {v[2]}")
+    if v[5]["at"] != [2]:
+        raise Machinery(f"selftest: wrong position of the likelihood decrease: {v[5]}")
+
+
+def selftest_worker(payload):
+    insts = {i["id"]: i for i in payload["insts"]}
+    acc = 0
+    for case in payload["cases"]:
+        _, vs = replay_one(case, insts[case["inst"]], 1, 0)
+        if not vs:
+            acc += 1
+    einsts = {i["id"]: i for i in payload["em_insts"]}
+    eacc = 0
+    for case in payload["em_cases"]:
+        _, vs, _ = replay_em_one(case, einsts[case["inst"]], 1, 0, 1)
+        if not vs:
+            eacc += 1
+
+    def stub(bn, df2, nprev):
+        bn.fit_update(df2, n_prev_samples=(nprev if nprev is not None else len(df2)) + 1)
+    rej = 0
+    for case in payload["good"]:
+        if case["kind"] == "update":
+            _, vs = replay_one(case, insts[case["inst"]], 1, 0, stub=stub)
+            rej += any(v["clause"] == "value" for v in vs)
+    return {"accepted_corrupt": acc, "accepted_corrupt_em": eacc, "stub_rejected": rej}
